@@ -20,7 +20,7 @@ func init() {
 	register(&CheckDef{
 		ID:    "C20",
 		Level: "exploration",
-		Rule:  "seeded request generator over all API endpoints (/stream /tx /halt /handoff /promote /import /export /info /events plus unknown paths) x methods x parameters (missing, empty, unknown, malformed, own/foreign node id) x bodies (empty, truncated at any byte, garbage, hostile position map, valid) x HTTP/1.1 vs h2 shape x node role (primary, replica, node without a primary); each request is served by the node's real root handler in-process (a handler panic is what net/http turns into a dropped connection without a response). Oracle: every request ends with a status and no panic (long-lived /stream and /events are hung up on by a fake-clock timeout), afterwards /info answers and a commit on the primary still succeeds, and for requests that are malformed, refused for the role, or name a database/lock that must already exist the digest of databases, positions, LTX directories and lock states is unchanged. evaluations = requests; distinct = distinct (role, endpoint, method, parameter class, body class) tuples; non-trivial = run with >= 10 requests",
+		Rule:  "seeded request generator over all API endpoints (/stream /tx /halt /handoff /promote /import /export /info /events plus unknown paths) x methods x parameters (missing, empty, unknown, malformed, own/foreign node id) x bodies (empty, truncated at any byte, garbage, hostile position map, valid) x HTTP/1.1 vs h2 shape x node role (primary, replica, node without a primary); each request is served by the node's real root handler in-process (a handler panic is what net/http turns into a dropped connection without a response). Oracle: every request ends with a status and no panic (long-lived /stream and /events are hung up on by a fake-clock timeout), afterwards /info answers and a commit on the primary still succeeds, and for requests that are malformed, refused for the role, or name a database/lock that must already exist the digest of databases, positions, LTX directories and lock states is unchanged. One run in forty is a well-formed GET /events whose client stops reading while more transactions are committed than the subscriber's buffer holds: every commit returns, /info answers, the request ends when the client goes away (a goroutine of the node waiting for a mutex with nothing else able to run is reported as a deadlock of the node). evaluations = requests; distinct = distinct (role, endpoint, method, parameter class, body class) tuples; non-trivial = run with >= 10 requests",
 		Run:   runC20,
 		NonTrivial: func(r *Run) bool {
 			return r.Stats["c20.requests"] >= 10
@@ -89,8 +89,86 @@ type c20req struct {
 	haltDB         string
 }
 
+// stallSink lets the first n writes through and then blocks (a client that
+// stops reading: the socket buffers are full) until released.
+type stallSink struct {
+	n       int
+	release chan struct{}
+	wrote   int
+}
+
+func (s *stallSink) Write(p []byte) (int, error) {
+	s.wrote++
+	if s.wrote > s.n {
+		<-s.release
+	}
+	return len(p), nil
+}
+
+// c20StalledEvents: a well-formed GET /events whose client stops reading while
+// the node goes on committing - more events than the subscriber's buffer holds.
+// The node must not wedge: every commit returns, /info answers, and when the
+// client finally goes away its request ends.
+func c20StalledEvents(r *Run) {
+	t := r.Tape
+	const dbName = "db"
+	p := newStaticPrimary(r, false, nil)
+	if p == nil {
+		return
+	}
+	h := &hist{r: r, n: p, name: dbName, pageSize: 512, jmode: ModeDelete, maxPages: 3}
+	if !h.openConns(1) {
+		return
+	}
+	h.commit(t)
+	if r.Failed() || h.ref.N() == 0 {
+		return
+	}
+	sink := &stallSink{n: t.Range(1, 3), release: make(chan struct{})}
+	ctx, cancel := context.WithCancel(context.Background())
+	defer cancel()
+	done := make(chan HTTPResult, 1)
+	go func() { done <- p.HTTPTo(ctx, "GET", "/events", sink) }()
+	time.Sleep(10 * time.Millisecond)
+	n := litefs.EventChannelBufferSize + t.Range(2, 40)
+	c := h.conns[0]
+	for i := 0; i < n && !r.Failed(); i++ {
+		c.Mode = h.jmode
+		res := c.WriteTx(TxProgram{NewSize: h.ref.N(), Outcome: OutCommit, Modify: []uint32{1}}, h.ref)
+		if res.Outcome != OutCommit {
+			r.Failf("c20.events-stall", "commit %d of %d while a /events client is stalled was refused at %s: %v", i, n, res.FailedAt, res.Errno)
+			return
+		}
+		h.ref = res.After
+		r.Step()
+	}
+	r.Count("c20.events.stalled-client")
+	ictx, icancel := context.WithTimeout(context.Background(), 5*time.Second)
+	info := p.HTTP(ictx, "GET", "/info", nil, nil, false)
+	icancel()
+	r.Check(info.Code == 200 && !info.Panicked, "c20.events-stall", "after %d commits with a stalled /events client GET /info answers %d %s", n, info.Code, info.PanicMsg)
+	close(sink.release)
+	cancel()
+	select {
+	case res := <-done:
+		r.Check(!res.Panicked, "c20.panic", "GET /events panicked: %s", res.PanicMsg)
+	case <-time.After(10 * time.Second):
+		r.Failf("c20.events-stall", "the /events request of a client that went away has not ended after 10 s")
+	}
+	if res, _ := h.commit(t); res == "" {
+		_ = res
+	}
+	checkNodeHealthy(r, p, "c20")
+	r.State("events-stall/%d", sink.n)
+}
+
 func runC20(r *Run) {
 	t := r.Tape
+	if t.Chance(1, 40) {
+		r.Cfg["role"] = "stalled-events-client"
+		c20StalledEvents(r)
+		return
+	}
 	role := []string{"primary", "replica", "orphan"}[t.Pick([]int{5, 3, 2})]
 	r.Cfg["role"] = role
 	pageSize := uint32(512)
